@@ -414,7 +414,8 @@ func (o *Oracle) judgeRefusal(e *Exchange, pol *Policy, sv *sessionVerdict, skip
 			if G.IsZero() {
 				G = at
 			}
-			if done.Before(G.Add(cfg.GraceTTL).Add(-2*margin)) && done.Before(S.LifetimeDeadline.Add(-2*margin)) && o.cleanExcept(e, firstEP) && sv.presented == 1 {
+			if done.Before(G.Add(cfg.GraceTTL).Add(-2*margin)) && done.Before(S.LifetimeDeadline.Add(-2*margin)) && o.cleanExcept(e, firstEP) && sv.presented == 1 &&
+				everyEmailRulePasses(pol, S.Email) && e.Status != 301 {
 				// C05.A3 (positive): inside the grace period an unavailable answer keeps the session working
 				o.violate(e, "C05.A3-grace-honoured", fmt.Sprintf("refused on a %s answer from /%s only %v into the outage (grace TTL %v)", "429/503", firstEP, at.Sub(G), cfg.GraceTTL),
 					"endpoint", firstEP, "fresh", fmt.Sprint(m == nil || m.GraceStart.IsZero()))
@@ -504,6 +505,21 @@ func (o *Oracle) judgeRuleRefusal(e *Exchange, pol *Policy, sv *sessionVerdict, 
 	}
 	o.violate(e, "C11.A2-same-verdict-later", fmt.Sprintf("%q (groups %v) satisfies %v of the configured rules %v but the request was refused with %d (%s)", S.Email, groupsNow, sat, rules, e.Status, when),
 		"direction", "wrongly-refused", "cause", cause)
+}
+
+// everyEmailRulePasses: the user satisfies each configured e-mail rule, so that a refusal cannot be
+// the rule re-check that follows the due check (the any-of/all-of question is C11's, not C05's).
+func everyEmailRulePasses(pol *Policy, email string) bool {
+	if email == "" {
+		return false
+	}
+	if len(pol.Addresses) > 0 && !(&Policy{Addresses: pol.Addresses}).EmailRuleAdmits(email) {
+		return false
+	}
+	if len(pol.Domains) > 0 && !(&Policy{Domains: pol.Domains}).EmailRuleAdmits(email) {
+		return false
+	}
+	return true
 }
 
 // cleanExcept reports that no fault other than the answer of endpoint ep touched this request.
